@@ -118,6 +118,7 @@ def assigned_expr(st: ast.stmt, name: str) -> Optional[ast.expr]:
                 return None
             for i, e in enumerate(t.elts):
                 sub = ast.copy_location(ast.Subscript(value=value, slice=ast.copy_location(ast.Constant(value=i), value), ctx=ast.Load()), value)
+                sub._vstat_unpack = True  # type: ignore[attr-defined]  # stands for "the i-th item the unpacking takes"
                 got = path(e, sub)
                 if got is not None:
                     return got
